@@ -239,34 +239,21 @@ func (m *C02) OnGenesis(e *eng.Engine, g map[string]json.RawMessage, s *obs.Snap
 	if json.Unmarshal(g["ecocredit"], &eco) != nil {
 		return
 	}
-	var batches []struct {
-		Key   json.Number `json:"key"`
-		Denom string      `json:"denom"`
-		Open  bool        `json:"open"`
-	}
-	var sups []struct {
-		BatchKey  json.Number `json:"batch_key"`
-		Tradable  string      `json:"tradable_amount"`
-		Retired   string      `json:"retired_amount"`
-		Cancelled string      `json:"cancelled_amount"`
-	}
-	_ = json.Unmarshal(eco[obs.TBatch], &batches)
-	_ = json.Unmarshal(eco[obs.TBatchSupply], &sups)
 	denomOf := map[string]string{}
-	for _, b := range batches {
-		denomOf[b.Key.String()] = b.Denom
-		if !b.Open {
-			m.sealedAt[b.Denom] = true
+	for _, b := range GenRows(eco[obs.TBatch]) {
+		denomOf[gs(b, "key")] = gs(b, "denom")
+		if !gb(b, "open") {
+			m.sealedAt[gs(b, "denom")] = true
 		}
 	}
-	for _, sp := range sups {
+	for _, sp := range GenRows(eco[obs.TBatchSupply]) {
 		t := new(big.Rat)
-		for _, a := range []string{sp.Tradable, sp.Retired, sp.Cancelled} {
+		for _, a := range []string{gs(sp, "tradable_amount"), gs(sp, "retired_amount"), gs(sp, "cancelled_amount")} {
 			if r, err := ref.DecOrZero(a); err == nil {
 				t.Add(t, r)
 			}
 		}
-		m.issued[denomOf[sp.BatchKey.String()]] = t
+		m.issued[denomOf[gs(sp, "batch_key")]] = t
 	}
 	m.compare(e, s, "genesis")
 }
